@@ -296,6 +296,24 @@ func c04Run(c *mon.Ctx, csAny any) {
 		{"UnmarshalBinary(MarshalBinary)", func(d *secp256k1.Element) error { return d.UnmarshalBinary(mb) }},
 	} {
 		d := secp256k1.Base().Double() // a receiver that is neither the value nor the identity
+
+		if !p.IsInf() && p.X.Sign() != 0 && len(cs.E.R.L)%3 == 0 {
+			// ... or one that holds ANOTHER point in a representation whose raw X (resp. raw Y) equals the affine x (y) of
+			// the point about to be decoded: a decoder that compares the input with what the receiver holds sees a "match"
+			q := oracle.Dbl(oracle.G())
+			if q.X.Cmp(p.X) == 0 {
+				q = oracle.Dbl(q)
+			}
+
+			l := oracle.FMul(p.X, oracle.FInv0(q.X))
+			if len(cs.E.R.L)%2 == 1 {
+				l = oracle.FMul(p.Y, oracle.FInv0(q.Y))
+			}
+
+			d = mon.Elem(q, gen.Repr{Kind: "scaled", L: l})
+			c.Count("roundtrip-into-matching-receiver")
+		}
+
 		c.Eval(1)
 
 		var err error
